@@ -377,7 +377,9 @@ func (c *Conn) read(n int) ([]byte, error) {
 }
 
 func (c *Conn) write(frameType int, deadline time.Time, buf0, buf1 []byte) error {
+	verifGate(c, "write.lock")
 	<-c.mu
+	verifGate(c, "write.locked")
 	defer func() { c.mu <- struct{}{} }()
 
 	c.writeErrMu.Lock()
@@ -438,6 +440,7 @@ func (c *Conn) WriteControl(messageType int, data []byte, deadline time.Time) er
 		maskBytes(key, 0, buf[6:])
 	}
 
+	verifGate(c, "wc.lock")
 	if deadline.IsZero() {
 		// No timeout for zero time.
 		<-c.mu
@@ -460,6 +463,7 @@ func (c *Conn) WriteControl(messageType int, data []byte, deadline time.Time) er
 	}
 
 	defer func() { c.mu <- struct{}{} }()
+	verifGate(c, "wc.locked")
 
 	c.writeErrMu.Lock()
 	err := c.writeErr
@@ -497,6 +501,7 @@ func (c *Conn) beginMessage(mw *messageWriter, messageType int) error {
 	c.writeErrMu.Lock()
 	err := c.writeErr
 	c.writeErrMu.Unlock()
+	verifGate(c, "begin.checked")
 	if err != nil {
 		return err
 	}
